@@ -23,7 +23,7 @@ From Coq Require Import List ZArith Bool.
 Import ListNotations.
 From PV Require Import Fort.Syntax Fort.Sem Fort.Facts C06.Syntax C06.Model C06.Common
                        C06.ArrayAssignProofs C06.IntrinsicProofs C06.ReductionProofs C06.LinAlgProofs
-                       C06.Bounds C06.MatMatProofs C06.MatVecFProofs.
+                       C06.Bounds C06.MatMatProofs C06.MatVecFProofs C06.ArrayAssign2D C06.ArrayAssign2DProofs C06.DotFProofs.
 Open Scope Z_scope.
 
 (* ------------------------------------------------------------------ ArrayAssignment2LoopsTrans *)
@@ -255,3 +255,90 @@ Example C06_matvec_forms_nonvacuous :
                  val s2 (0%nat, [3]) = 39).
 Proof. exact matvecF_nonvacuous. Qed.
 Print Assumptions C06_matvec_forms_nonvacuous.
+
+(* ------------------------------------------------------------------ array assignment, two ranges per accessor (round 4) *)
+(* a(.., l1:u1:s1, .., l2:u2:s2, ..) = rhs: the LAST range becomes the outer loop (symbol idx), the first the
+   inner loop (idx1); for all bounds, strides and contents the nest ends in the store of the Fortran array
+   assignment (all elements evaluated first) up to idx, idx1 -- when the lhs array is read only through the
+   written section, strides are syntactically equal and ranges declared equal have the same normalised start *)
+Theorem C06_arrayassign2d_sound_partial : forall fx d idx idx1 a s s' f,
+  aa2_safe fx d idx idx1 a = true -> bnd_ok d s -> aa2_sem a s = Some s' ->
+  exists prog, aa2_apply fx d idx idx1 a = Some prog /\
+  exists s2 tr, exec (4 + f) prog s = Ok s2 tr CNormal /\ agree_except [idx; idx1] s2 s'.
+Proof. exact aa2_sound_partial_. Qed.
+Print Assumptions C06_arrayassign2d_sound_partial.
+
+(* a(2:3, 0:2) = b(1:2, 5:7) * x + a(2:3, 0:2) with a(2:4,0:2), b(1:3,5:7) *)
+Example C06_arrayassign2d_nonvacuous :
+  aa2_safe unfixed e2_decls 2%nat 3%nat e2_stmt = true /\ bnd_ok e2_decls e2_store /\
+  (exists s', aa2_sem e2_stmt e2_store = Some s' /\ val s' (0%nat, [3; 2]) = 84) /\
+  (exists prog s2 tr, aa2_apply unfixed e2_decls 2%nat 3%nat e2_stmt = Some prog /\
+                      exec 20 prog e2_store = Ok s2 tr CNormal /\ val s2 (0%nat, [3; 2]) = 84).
+Proof. exact aa2_safe_nonvacuous. Qed.
+Print Assumptions C06_arrayassign2d_nonvacuous.
+
+(* d(:,1) = d(1,:) with d(0:2,1:3): the unfixed same_range shortcut ignores the dimension ... *)
+Theorem C06_arrayassign_dimmix_refuted :
+  exists s' prog s2 tr,
+    aa_accept dm_stmt = true /\ bnd_ok dm_decls dm_store /\ aa_sem dm_stmt dm_store = Some s' /\
+    aa_apply unfixed dm_decls 2%nat dm_stmt = Some prog /\
+    exec 10 prog dm_store = Ok s2 tr CNormal /\ val s2 (0%nat, [0; 1]) <> val s' (0%nat, [0; 1]).
+Proof. exact aa_dimmix_refuted_. Qed.
+Print Assumptions C06_arrayassign_dimmix_refuted.
+
+(* ... and the variant with the repair 148f649 (flag fx_shortcut, detected on the tree under test) lowers it correctly *)
+Theorem C06_arrayassign_dimmix_fixed :
+  exists s' prog s2 tr,
+    aa_sem dm_stmt dm_store = Some s' /\ aa_apply (mkFixes true false false) dm_decls 2%nat dm_stmt = Some prog /\
+    exec 10 prog dm_store = Ok s2 tr CNormal /\
+    val s2 (0%nat, [0; 1]) = val s' (0%nat, [0; 1]) /\ val s2 (0%nat, [1; 1]) = val s' (0%nat, [1; 1]) /\
+    val s2 (0%nat, [2; 1]) = val s' (0%nat, [2; 1]) /\ val s' (0%nat, [1; 1]) = 12.
+Proof. exact aa_dimmix_fixed_. Qed.
+Print Assumptions C06_arrayassign_dimmix_fixed.
+
+(* the reduction-loop theorem over the effective bounds of (assumed-shape) dummies *)
+Theorem C06_reduction_effective : forall fx fm actuals idx x xi k arr mask code s xv v,
+  red_loop fx (eff_decls fm actuals) idx x xi k arr mask = Some code ->
+  red_safe fx (eff_decls fm actuals) idx x xi arr mask = true -> bnd_ok (eff_decls fm actuals) s ->
+  opt_all (map (eval s) xi) = Some xv -> red_sem k arr mask s = Some v ->
+  (forall l h t all, red_elems s arr mask (zseq 0 (trip_count l h t)) = Some all ->
+                     Forall (fun w => - HUGE <= w <= HUGE) all) ->
+  hoare 6 code s (fun s' => val s' (x, xv) = v /\ bnd s' = bnd s /\
+                            forall loc, fst loc <> idx -> loc <> (x, xv) -> val s' loc = val s loc).
+Proof. intros fx fm actuals. exact (reduction_ok_ fx (eff_decls fm actuals)). Qed.
+Print Assumptions C06_reduction_effective.
+
+(* ------------------------------------------------------------------ DOT_PRODUCT over effective bounds (round 4) *)
+(* any loop-bound expressions that evaluate to the first vector's effective bounds *)
+Theorem C06_dot_effective_partial : forall lo hi d i res hole x xi ctx v1 r1 v2 r2 s v xv w,
+  dot_safe d i res hole x xi ctx v1 r1 v2 r2 = true ->
+  (forall s', bnd s' = bnd s -> eval s' lo = Some (fst (dim0 d v1)) /\ eval s' hi = Some (snd (dim0 d v1))) ->
+  dot_sem d v1 r1 v2 r2 s = Some v ->
+  opt_all (map (eval s) xi) = Some xv -> eval (upd s (hole, []) v) ctx = Some w ->
+  hoare 8 (dotG_apply lo hi i res x xi ctx hole v1 r1 v2 r2) s
+        (fun s2 => agree_except [i; res; hole] s2 (upd s (x, xv) w)).
+Proof. exact dotG_sound_partial_. Qed.
+Print Assumptions C06_dot_effective_partial.
+
+(* the bounds chosen by _get_array_bound for each accepted declaration form *)
+Theorem C06_dot_forms_sound_partial : forall fm d i res hole x xi ctx v1 r1 v2 r2 s v xv w lo hi,
+  dot_bounds fm v1 v2 = Some (lo, hi) ->
+  dot_safe d i res hole x xi ctx v1 r1 v2 r2 = true ->
+  vector_ok fm d s v1 -> vector_ok fm d s v2 -> snd (dim0 d v2) = snd (dim0 d v1) ->
+  dot_sem d v1 r1 v2 r2 s = Some v ->
+  opt_all (map (eval s) xi) = Some xv -> eval (upd s (hole, []) v) ctx = Some w ->
+  hoare 8 (dotG_apply lo hi i res x xi ctx hole v1 r1 v2 r2) s
+        (fun s2 => agree_except [i; res; hole] s2 (upd s (x, xv) w)).
+Proof. exact dot_forms_sound_partial_. Qed.
+Print Assumptions C06_dot_forms_sound_partial.
+
+(* x = DOT_PRODUCT(v1, v2) with v1(:) (actual 4:6) and v2(1:3) *)
+Example C06_dot_forms_nonvacuous :
+  df_decls 0%nat = [(1, 3)] /\ dot_bounds df_forms 0%nat 1%nat = Some (ELit 1, ELit 3) /\
+  dot_safe df_decls 3%nat 4%nat 5%nat 2%nat [] (EVar 5%nat) 0%nat [] 1%nat [] = true /\
+  vector_ok df_forms df_decls df_store 0%nat /\ vector_ok df_forms df_decls df_store 1%nat /\
+  dot_sem df_decls 0%nat [] 1%nat [] df_store = Some 32 /\
+  (exists s2 tr, exec 30 (dotG_apply (ELit 1) (ELit 3) 3%nat 4%nat 2%nat [] (EVar 5%nat) 5%nat 0%nat [] 1%nat []) df_store
+                 = Ok s2 tr CNormal /\ val s2 (2%nat, []) = 32).
+Proof. exact dot_forms_nonvacuous. Qed.
+Print Assumptions C06_dot_forms_nonvacuous.
